@@ -153,13 +153,13 @@ def oracle(ck):
         if abs(r.get_rms(band) - float(integral_rms(r.f, r.asd, band))) > 1e-12 * (1 + r.get_rms(band)):
             ck.violation("get_rms differs from integral_rms of the result's own ASD", dict(band=band), tag="get_rms")
         # several bands queried on the SAME result, edges that differ only below a millihertz (slow data): each is its own integral
-        rl = SpectrumAnalyzer(x[:6000], 0.5, Jdes=60, Kdes=8, order=0, scheduler="ltf", win="hann").compute()
+        rl = SpectrumAnalyzer(x[:6000], 0.02, Jdes=60, Kdes=8, order=0, scheduler="ltf", win="hann").compute()
         fl = np.asarray(rl.f, float)
         qs = [(float(fl[1]), float(fl[6])), (float(fl[2]), float(fl[9])), (float(fl[1]) * 1.01, float(fl[12])), (float(fl[4]), float(fl[5])), (float(fl[1]), float(fl[6]))]
         for bq in qs:
             got = rl.get_rms(bq); want = float(integral_rms(rl.f, rl.asd, bq))
             if abs(got - want) > 1e-12 * (1 + abs(want)):
-                ck.violation("get_rms(%r) on a result already queried for other bands returns %r, the trapezoid integral is %r" % (bq, got, want), dict(bands=qs, fs=0.5), tag="get_rms-repeat")
+                ck.violation("get_rms(%r) on a result already queried for other bands returns %r, the trapezoid integral is %r" % (bq, got, want), dict(bands=qs, fs=0.02), tag="get_rms-repeat")
                 break
         full = r.get_rms()
         if abs(full / float(np.std(x)) - 1) > 0.06:
